@@ -282,6 +282,26 @@ impl Property for C16 {
                 ctx.stats.probe("two_transcripts_refused");
             }
         }
+        // ---- a twin sharing in the same process: the same bytes M||R split at another point (same threshold).
+        // It is a different (threshold, message, coins) triple, so it is its own sharing: its shares recover ITS
+        // message, whatever was dealt before it.
+        if tid == 0 && t >= 1 && ml + rl >= 1 && ctx.ch.chance(1, 3) {
+            let cat = [m.clone(), r.clone()].concat();
+            let mut cut = ctx.ch.index(cat.len() + 1);
+            if cut == ml {
+                cut = if cut == 0 { cat.len() } else { 0 };
+            }
+            let (m2, r2) = cat.split_at(cut);
+            let mut twin: Vec<Share> = Vec::new();
+            for d in 0..t {
+                twin.push(deal(ctx, 7000 + d as u64, t, m2, r2, 0)?);
+            }
+            match recover(&twin) {
+                Ok(c) if c.get_message() == m2 => ctx.stats.probe("split_twin_recovers_its_own_message"),
+                Ok(_) => return Err(Violation::new("c16.recover", "split_twin_wrong_message", format!("a sharing of (|M|={}, |R|={}) dealt after one of (|M|={}, |R|={}) with the same concatenation M||R and threshold recovered another message than its own", m2.len(), r2.len(), ml, rl))),
+                Err(e) => return Err(Violation::new("c16.recover", "split_twin_err", format!("t={} shares of a sharing of (|M|={}, |R|={}) dealt after one of (|M|={}, |R|={}) with the same concatenation did not recover: {}", t, m2.len(), r2.len(), ml, rl, e))),
+            }
+        }
         // ---- failed attempts leave nothing behind. Above, collections led by this sharing's own shares were
         // (rightly) refused; here a damaged copy of the collection is refused as well - one byte of the first
         // share's encrypted coins or message altered, tag J intact. The SAME genuine collection must then still
